@@ -49,6 +49,7 @@ import DSymVerif.Proofs.Delaney3dBranchFar
 import DSymVerif.Proofs.Delaney3dReindex
 import DSymVerif.Proofs.Delaney3dPipelineSize
 import DSymVerif.Proofs.ToroidalCover
+import DSymVerif.Proofs.TGroupIso
 import DSymVerif.Proofs.Delaney3dNoPanic
 import DSymVerif.Props.C05
 import DSymVerif.Props.C09
@@ -1121,6 +1122,187 @@ theorem toroidal_cover_group_is_finite_index_subgroup (s cov : DSymData) (hs : V
   exact ⟨oc, fg, _, hsoc, hdim, hfg, hv, hoc, hcov.size, hindex, ⟨φ, hinj, hrange⟩,
     ⟨(MonoidHom.ofInjective hinj).trans (MulEquiv.subgroupCongr hrange)⟩,
     f', hf', no_cones gc.valid hcd (fun i j x hp h1 h2 => all_v_one gc hall hp h1 h2) hf', ⟨eM⟩⟩
+
+/-! ### 9. the oriented cover and the group of the INPUT
+
+The π₁ statements of §6 and §8 are relative to the oriented cover `oc` of the input.  The oriented
+double cover is not literally the cover of a coset table of `fundamental_group(s)`:
+`partial_orientation` signs the chambers along its own traversal, `spanning_tree` uses the
+traversal with reversed seeds, so the sheet map of `oriented_cover` may change the sheet across
+a facet of the spanning tree.  But `oc` is a covering of `s` (any dimension), hence ISOMORPHIC
+OVER `s` to an entry `c'` of the model's `covers(s, 2)` (C05 classification), whose group is a
+stabiliser of index 1 or 2 in `TGroup s`; and isomorphic connected symbols have isomorphic
+textbook groups (Proofs/TGroupIso.lean: the group does not depend on the numbering, although its
+tree relators do).  So `TGroup oc` embeds into `TGroup s` with index 1 or 2, and every π₁
+statement composes to one about the group of the input itself. -/
+
+/-- **oriented_cover_is_covering.**  In every dimension ≥ 1 the oriented cover of a valid symbol is
+    a covering of it in the sense of C05 (`IsCoverOf`: valid symbol, projection commuting with
+    every operation, all degrees `m_ij` preserved, complete if `s` is, connected if `s` is), with
+    one sheet if `s` is oriented and two otherwise. -/
+theorem oriented_cover_is_covering (s oc : DSymData) (hs : ValidSym s) (hsz : 1 ≤ s.size)
+    (hdim : 1 ≤ s.dim) (hoc : orientedCover s = .ok oc) :
+    CoversP.IsCoverOf s oc (if s.view.isOriented then 1 else 2) := by
+  have hsoc := orientedCover_validSym hs hsz hdim hoc
+  have hcomplete : s.isCompletePartial = true → oc.isCompletePartial = true := by
+    intro hcompl
+    have hmpos := orientedCover_mVal_pos s oc hs hsz hdim hcompl hoc
+    apply D2.complete_of_vN hsoc.toValidTables
+    intro i d hi h1 h2
+    have := hmpos i d hi h1 h2
+    unfold DSymData.mVal at this
+    intro h0
+    rw [h0, Nat.mul_zero] at this
+    omega
+  have hconn : s.view.isConnected = true → oc.view.isConnected = true :=
+    fun hc => C05.oriented_cover_connected s hs.toValidTables hsz hdim hc oc hoc
+  cases ho : s.view.isOriented with
+  | true =>
+    have := (C05.oriented_cover_covering s hs.toValidTables hsz hdim).2.1 ho
+    rw [hoc] at this
+    have he : oc = s := Outcome.ok.inj this
+    rw [he]
+    simp only [if_true]
+    have hsd : s.size = s.dset.size := rfl
+    apply isCoverOf_of_adjacent (le_refl 1) (by omega) rfl hs hsz
+    · intro i e hi he1 he2
+      have hr := hs.set.range i e hi he1 (by omega)
+      rw [← hsd] at hr
+      have hc1 : cproj s.size e = e := by
+        unfold cproj; rw [Nat.mod_eq_of_lt (by omega)]; omega
+      have hc2 : cproj s.size (s.dset.opU i e) = s.dset.opU i e := by
+        unfold cproj; rw [Nat.mod_eq_of_lt (by omega)]; omega
+      rw [hc1, hc2]
+    · intro i e hi he1 he2
+      have hc1 : cproj s.size e = e := by
+        unfold cproj; rw [Nat.mod_eq_of_lt (by omega)]; omega
+      rw [hc1]
+    · exact fun h => h
+    · exact fun h => h
+  | false =>
+    obtain ⟨c, hc, hcs, hcd, _, hproj⟩ := ((C05.oriented_cover_covering s hs.toValidTables hsz hdim).2.2 ho).2
+    obtain ⟨c2, hc2, _, _, _, hdeg⟩ := C05.oriented_cover_preserves_degrees s hs.toValidTables hsz hdim ho
+    have e3 : c = oc := by rw [hoc] at hc; exact (Outcome.ok.inj hc).symm
+    have e4 : c2 = oc := by rw [hoc] at hc2; exact (Outcome.ok.inj hc2).symm
+    rw [e3] at hcs hcd hproj
+    rw [e4] at hdeg
+    simp only [Bool.false_eq_true, if_false]
+    exact isCoverOf_of_adjacent (by decide) hcs hcd hsoc hsz hproj
+      (fun i d hi h1 h2 => (hdeg i d hi h1 h2).2.2) hcomplete hconn
+
+/-- **oriented_cover_is_table_cover_up_to_iso.**  For a connected valid symbol `s`: the oriented
+    cover `oc` is isomorphic OVER `s` (`CoverIso`: a bijection of the chambers commuting with the
+    projection and with every operation) to an entry `c'` of the model's `covers(s, 2)`; `c'` is
+    the cover of a valid coset table of `fundamental_group(s)` with 1 (oriented `s`) or 2 rows, and
+    its textbook group embeds into `TGroup s` ONTO the stabiliser of row 0 of the monodromy
+    action, a subgroup of index 1 resp. 2 — the orientation subgroup.  (C05
+    `covers_classifies_coverings`, `covers_classes_and_groups`.) -/
+theorem oriented_cover_is_table_cover_up_to_iso (s oc : DSymData) (hs : ValidSym s) (hsz : 1 ≤ s.size)
+    (hdim : 1 ≤ s.dim) (hconn : s.view.isConnected = true) (hoc : orientedCover s = .ok oc) :
+    ∃ (c' : DSymData) (φ : Nat → Nat) (fg : FG.FundGroup) (hfg : FG.fundamentalGroup s = .ok fg)
+      (v : List (List Int)) (hv : CosetP.Valid (CosetInvP.viewTab v) fg.nrGenerators fg.relators []),
+      (∃ cs, Covers.coversAll s 2 = .ok cs ∧ c' ∈ cs) ∧
+      c'.size = oc.size ∧ CoversP.CoverIso s oc c' oc.size φ ∧
+      CoversP.IsCoverOf s c' (CosetInvP.viewTab v).size ∧
+      (CosetInvP.viewTab v).size = (if s.view.isOriented then 1 else 2) ∧
+      ((MulAction.stabilizer (Equiv.Perm (Fin (CosetInvP.viewTab v).size))
+          (⟨0, hv.pos⟩ : Fin (CosetInvP.viewTab v).size)).comap
+        (CoversP.rhoT hs hdim hfg hv)).index = (CosetInvP.viewTab v).size ∧
+      ∃ ψ : FGP.TGroup c' →* FGP.TGroup s, Function.Injective ψ ∧
+        ψ.range = (MulAction.stabilizer (Equiv.Perm (Fin (CosetInvP.viewTab v).size))
+            (⟨0, hv.pos⟩ : Fin (CosetInvP.viewTab v).size)).comap (CoversP.rhoT hs hdim hfg hv) := by
+  have hcovs := oriented_cover_is_covering s oc hs hsz hdim hoc
+  have hk2 : (if s.view.isOriented then 1 else 2) ≤ 2 := by split <;> omega
+  obtain ⟨fg, hfg, cs, hcs, hall, _⟩ := C05.covers_classes_and_groups s hs hsz hdim hconn 2
+  obtain ⟨cs', hcs', _, _, hcompl⟩ := C05.covers_classifies_coverings s hs hsz hdim hconn 2
+  have hce : cs' = cs := by rw [hcs] at hcs'; exact (Outcome.ok.inj hcs').symm
+  rw [hce] at hcompl
+  obtain ⟨c', hc', φ, hsize, hiso⟩ := hcompl oc _ hcovs hk2
+  obtain ⟨v, hv, hcov', _, hidx, _, ψ, hinj, hrange⟩ := hall c' hc'
+  have hrows : (CosetInvP.viewTab v).size = (if s.view.isOriented then 1 else 2) := by
+    have h1 := hcov'.size
+    rw [hsize, hcovs.size] at h1
+    exact (Nat.eq_of_mul_eq_mul_right hsz h1).symm
+  have hlet := (FGP.fundamentalGroup_letters s fg hfg).1
+  obtain ⟨hindex, _⟩ := transfer_stabiliser hlet hv (FGP.presIso hs hdim hfg) (CosetP.stab0 hv).subtype
+    (Subgroup.subtype_injective _) (by rw [Subgroup.range_subtype]; rfl) hidx
+  exact ⟨c', φ, fg, hfg, v, hv, ⟨cs, hcs, hc'⟩, hsize, hiso, hcov', hrows, hindex, ψ, hinj, hrange⟩
+
+/-- **oriented_cover_group_in_input_group.**  For a connected valid symbol `s` (dimension ≥ 1):
+    the textbook orbifold group of the oriented cover embeds into the textbook orbifold group of
+    `s` — `Ψ : TGroup oc →* TGroup s` injective — onto the stabiliser of row 0 of a valid coset
+    table of `fundamental_group(s)` with 1 (oriented `s`) or 2 rows under the monodromy action:
+    the **orientation subgroup**, of index 1 resp. 2. -/
+theorem oriented_cover_group_in_input_group (s oc : DSymData) (hs : ValidSym s) (hsz : 1 ≤ s.size)
+    (hdim : 1 ≤ s.dim) (hconn : s.view.isConnected = true) (hoc : orientedCover s = .ok oc) :
+    ∃ Ψ : FGP.TGroup oc →* FGP.TGroup s, Function.Injective Ψ ∧
+      Ψ.range.index = (if s.view.isOriented then 1 else 2) ∧
+      ∃ (fg : FG.FundGroup) (hfg : FG.fundamentalGroup s = .ok fg) (v : List (List Int))
+        (hv : CosetP.Valid (CosetInvP.viewTab v) fg.nrGenerators fg.relators []),
+        (CosetInvP.viewTab v).size = (if s.view.isOriented then 1 else 2) ∧
+        Ψ.range = (MulAction.stabilizer (Equiv.Perm (Fin (CosetInvP.viewTab v).size))
+            (⟨0, hv.pos⟩ : Fin (CosetInvP.viewTab v).size)).comap (CoversP.rhoT hs hdim hfg hv) := by
+  obtain ⟨c', φ, fg, hfg, v, hv, _, hsize, hiso, hcov', hrows, hindex, ψ, hinj, hrange⟩ :=
+    oriented_cover_is_table_cover_up_to_iso s oc hs hsz hdim hconn hoc
+  have hcovs := oriented_cover_is_covering s oc hs hsz hdim hoc
+  obtain ⟨e⟩ := CoversP.tgroup_iso_of_coverIso hcovs hcov' hsize hiso hsz (hcovs.connected hconn)
+    (hcov'.connected hconn)
+  have hr : (ψ.comp e.toMonoidHom).range = ψ.range := by
+    ext x
+    constructor
+    · rintro ⟨y, rfl⟩; exact ⟨e y, rfl⟩
+    · rintro ⟨y, rfl⟩; exact ⟨e.symm y, by simp⟩
+  refine ⟨ψ.comp e.toMonoidHom, hinj.comp e.injective, ?_, fg, hfg, v, hv, hrows, by rw [hr, hrange]⟩
+  rw [hr, hrange, hindex, hrows]
+
+/-- **ptc_cover_group_in_input_group** — π₁ of the returned 3D cover inside π₁ of the INPUT.  For a
+    valid connected D-symbol `s`: whenever the model of `pseudo_toroidal_cover` returns
+    `Some(cov)`, the textbook orbifold group of `cov` (abelianisation ℤ³: `ptc_cover_has_H1_Z3`)
+    embeds into the textbook orbifold group of `s` itself as a subgroup of FINITE INDEX equal to
+    the number of sheets of `cov` over `s`: `index · |s| = |cov|`. -/
+theorem ptc_cover_group_in_input_group (s cov : DSymData) (hs : ValidSym s) (hsz : 1 ≤ s.size)
+    (hconn : s.view.isConnected = true) (h : pseudoToroidalCover s = .ok (some cov)) :
+    ∃ Φ : FGP.TGroup cov →* FGP.TGroup s, Function.Injective Φ ∧
+      Φ.range.index * s.size = cov.size ∧ Φ.range.index ≠ 0 := by
+  obtain ⟨oc, fg, t, hsoc, hdim, hfg, hV, gens, srels, hoc, hsize, hidx, ⟨eK⟩, _⟩ :=
+    ptc_cover_group_is_selected_subgroup s cov hs hsz hconn h
+  obtain ⟨⟨_, _, _, _, _, _, dim3, _⟩⟩ := ptc_run s cov h
+  have hdims : 1 ≤ s.dim := by rw [dim3]; decide
+  obtain ⟨Ψ, hΨ, hΨi, _⟩ := oriented_cover_group_in_input_group s oc hs hsz hdims hconn hoc
+  have hcovs := oriented_cover_is_covering s oc hs hsz hdims hoc
+  let φ : FGP.TGroup cov →* FGP.TGroup oc := (Subgroup.subtype _).comp eK.toMonoidHom
+  have hφ : Function.Injective φ := (Subgroup.subtype_injective _).comp eK.injective
+  have hφr : φ.range = (MulAction.stabilizer (Equiv.Perm (Fin t.size)) (⟨0, hV.pos⟩ : Fin t.size)).comap
+      (CoversP.rhoT hsoc hdim hfg hV) := by
+    ext x
+    constructor
+    · rintro ⟨y, rfl⟩; exact (eK y).2
+    · intro hx; exact ⟨eK.symm ⟨x, hx⟩, by simp [φ]⟩
+  obtain ⟨hinj, hindex⟩ := CoversP.embed_comp φ Ψ hφ hΨ
+  refine ⟨Ψ.comp φ, hinj, ?_, ?_⟩
+  · rw [hindex, hφr, hidx, hΨi, hsize, hcovs.size, Nat.mul_assoc]
+  · rw [hindex, hφr, hidx, hΨi]
+    have := hV.pos
+    split <;> omega
+
+/-- **toroidal_cover_group_in_input_group** — the same in 2D: π₁ of a returned toroidal cover is a
+    subgroup of finite index = number of sheets of the orbifold group of the INPUT symbol. -/
+theorem toroidal_cover_group_in_input_group (s cov : DSymData) (hs : ValidSym s) (hsz : 1 ≤ s.size)
+    (hconn : s.view.isConnected = true) (h : toroidalCover s = .ok cov) :
+    ∃ Φ : FGP.TGroup cov →* FGP.TGroup s, Function.Injective Φ ∧
+      Φ.range.index * s.size = cov.size ∧ Φ.range.index ≠ 0 := by
+  obtain ⟨oc, fg, tab, hsoc, hdim, hfg, hV, hoc, hsize, hidx, ⟨φ, hφ, hφr⟩, _⟩ :=
+    toroidal_cover_group_is_finite_index_subgroup s cov hs hsz hconn h
+  have hd2 := (toroidalCover_run h).dim2
+  have hdims : 1 ≤ s.dim := by omega
+  obtain ⟨Ψ, hΨ, hΨi, _⟩ := oriented_cover_group_in_input_group s oc hs hsz hdims hconn hoc
+  have hcovs := oriented_cover_is_covering s oc hs hsz hdims hoc
+  obtain ⟨hinj, hindex⟩ := CoversP.embed_comp φ Ψ hφ hΨ
+  refine ⟨Ψ.comp φ, hinj, ?_, ?_⟩
+  · rw [hindex, hφr, hidx, hΨi, hsize, hcovs.size, Nat.mul_assoc]
+  · rw [hindex, hφr, hidx, hΨi]
+    have := hV.pos
+    split <;> omega
 
 /-! ### open (not theorems): the statements, for the record -/
 
